@@ -378,8 +378,8 @@ func c10Table(t *testing.T) []c10Tmpl {
 
 type c10Junk struct {
 	K    string `json:"k"`              // rand | tmpl | hdr | seal | name | rawsni | hidreq | rawauth | rawhid (the last two: Cut = length of the certificate-field plaintext (<0 natural), V / B1 = first / second length prefix (c10BlobFirst / c10BlobSecond), B2 = content, T = virtual host of rawhid)
-	Src  int    `json:"src,omitempty"`  // 0: the peer's own address (server target: the handshaking / first established client; client target: the server); n>0: third address n (5: a third address with source port 0 - replies to it fail in the socket)
-	T    int    `json:"t,omitempty"`    // tmpl: index into the table of valid messages; 100+i: the i-th most recent datagram of this case's honest traffic (0 = a held-back message); 300+m: its most recent datagram of message type m
+	Src  int    `json:"src,omitempty"`  // 0: the peer's own address (server target: the handshaking / first established client; client target: the server); n>0: third address n (5: a third address with source port 0 - replies to it fail in the socket); -1: the address the replayed datagram of this case's own traffic (tmpl with T>=100) originally came from (the peer's own address for other junk)
+	T    int    `json:"t,omitempty"`    // tmpl: index into the table of valid messages; 100+i: the i-th most recent datagram of this case's honest traffic (0 = a held-back message); 200+i: its i-th datagram in order of appearance (oldest first); 300+m: its most recent datagram of message type m
 	F    string `json:"f,omitempty"`    // tmpl: mutated field: type | b1 | b2 | b3 | certlen | ctr | fit ("" none)
 	V    int    `json:"v,omitempty"`    // value for F (type: -1 keeps; certlen: 0:0 1:1 2:0xffff 3:orig-1 4:orig+1; ctr: 0:zero 1:max 2:orig+1 3:random; fit: 0: N is the value of the length field, 1: N is the length of the whole datagram, 2: N is added to the template's own field value); hdr / seal: type byte; name: index; hidreq: host; rawsni: block-size byte
 	N    int    `json:"n,omitempty"`    // fit: the 16-bit length field (bytes 2..3) is set to N, or to N minus the fixed part of the message (V=1), AND the datagram is resized so that its real length agrees with the field
@@ -402,7 +402,7 @@ type c10Case struct {
 	Release   bool      `json:"release,omitempty"`   // client hs-*: the genuine reply is delivered after the junk (otherwise the junk arrives instead of it)
 	ProbeHost int       `json:"probeHost,omitempty"` // virtual host the final honest handshake aims at
 	Junk      []c10Junk `json:"junk"`
-	SettleS   int       `json:"settleS,omitempty"` // server target: virtual seconds between the junk and the oracle (the handshake timeout is 5 s: state that junk left behind expires in between)
+	SettleS   int       `json:"settleS,omitempty"` // server target and open client: virtual seconds between the junk and the oracle (the handshake timeout is 5 s: state that junk left behind expires in between)
 }
 
 // ---------------------------------------------------------------------------
@@ -426,6 +426,8 @@ type c10RT struct {
 
 	mu       sync.Mutex
 	live     [][]byte
+	liveSrc  []*net.UDPAddr // liveSrc[i]: the address live[i] was sent from
+	tmplSrc  *net.UDPAddr   // set by build: original source of the live template just used (nil: table template / no template)
 	hold     func(d simnet.Datagram) bool
 	held     []simnet.Datagram
 	handles  map[SessionID]*Handle
@@ -466,8 +468,10 @@ func (r *c10RT) excluded(sig string) {
 func (r *c10RT) filter(d simnet.Datagram) []simnet.Datagram {
 	r.mu.Lock()
 	r.live = append(r.live, append([]byte(nil), d.Data...))
+	r.liveSrc = append(r.liveSrc, d.Src)
 	if len(r.live) > 64 {
 		r.live = r.live[len(r.live)-64:]
+		r.liveSrc = r.liveSrc[len(r.liveSrc)-64:]
 	}
 	if len(d.Data) > 0 && d.Data[0] == byte(MessageTypeClientRequestHidden) {
 		if h, ok := r.addrHost[d.Src.String()]; ok && h == r.firstListHost() {
@@ -596,6 +600,11 @@ func (r *c10RT) probe(s *c10Sess, seed uint64) error {
 }
 
 func (r *c10RT) srcAddr(j c10Junk, peer *net.UDPAddr) *net.UDPAddr {
+	if j.Src < 0 && r.tmplSrc != nil {
+		// the datagram is a copy of one of this case's own datagrams and comes from where the original came from
+		r.label("src:original-address-of-the-copied-datagram")
+		return r.tmplSrc
+	}
 	if j.Src <= 0 && peer != nil {
 		return peer
 	}
@@ -736,6 +745,7 @@ func (r *c10RT) sealCounter(j c10Junk, id SessionID) uint64 {
 
 // build materialises a junk datagram; class names the shape (for labels / distinctness).
 func (r *c10RT) build(j c10Junk) (data []byte, class string, structured bool) {
+	r.tmplSrc = nil
 	switch j.K {
 	case "rand":
 		n := j.Cut
@@ -786,17 +796,31 @@ func (r *c10RT) build(j c10Junk) (data []byte, class string, structured bool) {
 				if d := r.live[i]; len(d) > 0 && int(d[0]) == T-300 {
 					data = append([]byte(nil), d...)
 					name = "live:" + c10TypeName(d)
+					r.tmplSrc = r.liveSrc[i]
 					break
 				}
 			}
 			r.mu.Unlock()
 			T -= 300
+		} else if T >= 200 {
+			// the (T-200)-th datagram of this case's honest traffic in order of appearance (oldest first; what the
+			// endpoints send in reaction to the junk is appended behind, so the numbering is stable within a case)
+			r.mu.Lock()
+			if n := len(r.live); n > 0 {
+				d := r.live[(T-200)%n]
+				data = append([]byte(nil), d...)
+				name = "live:" + c10TypeName(d)
+				r.tmplSrc = r.liveSrc[(T-200)%n]
+			}
+			r.mu.Unlock()
+			T -= 200
 		} else if T >= 100 {
 			r.mu.Lock()
 			if n := len(r.live); n > 0 {
 				d := r.live[n-1-(T-100)%n]
 				data = append([]byte(nil), d...)
 				name = "live:" + c10TypeName(d)
+				r.tmplSrc = r.liveSrc[n-1-(T-100)%n]
 			}
 			r.mu.Unlock()
 			T -= 100
@@ -1536,6 +1560,11 @@ func (r *c10RT) runClient() {
 			r.env.Net.Inject(r.srcAddr(j, vSrvAddr), addr, data)
 			c10Wait()
 		}
+		if c.SettleS > 0 {
+			time.Sleep(time.Duration(c.SettleS) * time.Second)
+			c10Wait()
+			r.label("oracle-after-the-handshake-timeout")
+		}
 		if err := r.probe(s, 500); err != nil {
 			r.v.Failf("C10:established-session-dead-after-junk", "the client's open session (%x, %s) no longer carries a message each way after %d junk datagrams: %v", s.id, c.Cfg, r.injected, err)
 			return
@@ -1755,6 +1784,10 @@ func c10Run(t *testing.T, rec *vlib.Recorder) func(c c10Case, v *vlib.Verdict) {
 		if len(c.Junk) > 0 {
 			// (the sweep's cases differ in their length range only)
 			v.Key += fmt.Sprintf("|n=%d|cut0=%d|%s%d.%d.%d", len(c.Junk), c.Junk[0].Cut, c.Junk[0].F, c.Junk[0].N, c.Junk[0].B1, c.Junk[0].B2)
+			if j0 := c.Junk[0]; j0.K == "tmpl" && j0.T >= 100 && j0.F == "" {
+				// (the verbatim-copy family: which of the case's own datagrams, from where, oracle when)
+				v.Key += fmt.Sprintf("|t=%d|src=%d|settle=%d|closed=%d", j0.T, j0.Src, c.SettleS, c.Closed)
+			}
 		}
 	}
 }
@@ -1894,6 +1927,10 @@ func c10GenJunk(t *rapid.T, c *c10Case, table []c10Tmpl, actors *int) c10Junk {
 		}
 		if shortOpen && j.Sid >= 2 && j.Cut > 8 && j.Cut-1 < 48 {
 			j.Cut = 49 + rapid.IntRange(0, 8).Draw(t, "cutfix")
+		}
+		if j.T >= 100 && j.Src == 0 && j.Seed%2 == 1 {
+			// a copy of one of the case's own datagrams comes from where the original came from (no draw of its own)
+			j.Src = -1
 		}
 	case "name":
 		j.V = rapid.IntRange(0, len(c10HostileNames())-1).Draw(t, "name")
@@ -2035,6 +2072,73 @@ func c10SweepScenarios() []c10SweepScn {
 		{"client", "hs-2", d1, 16, false},
 		{"client", "hs-1", h1, 16, false},
 	}
+}
+
+// c10CopyScn: a scenario of the verbatim-copy family of the sweep.
+type c10CopyScn struct {
+	Target, State    string
+	Cfg              c10Cfg
+	Sessions, Closed int
+}
+
+func c10CopyScenarios() []c10CopyScn {
+	d1, h1 := c10Cfg{Certs: 1}, c10Cfg{Hidden: true, Certs: 1}
+	d2, h3 := c10Cfg{Certs: 2, Fallback: true}, c10Cfg{Hidden: true, Certs: 3}
+	return []c10CopyScn{
+		{"server", "idle", d1, 0, 0},
+		{"server", "est", d1, 1, 0},
+		{"server", "est", d1, 2, 0},
+		{"server", "est", d1, 2, 2}, // the server-side handle of the second session is closed
+		{"server", "mid-ack-held", d1, 0, 0},
+		{"server", "mid-ack-held", d1, 1, 0},
+		{"server", "mid-auth-held", d1, 1, 0},
+		{"server", "closing", d1, 1, 0},
+		{"server", "idle", h1, 0, 0},
+		{"server", "est", h1, 2, 0},
+		{"server", "est", h3, 2, 0},
+		{"server", "est", d2, 2, 0},
+		{"server", "mid-auth-held", d2, 1, 0},
+		{"client", "open", d1, 0, 0},
+		{"client", "open", h1, 0, 0},
+		{"client", "hs-1", d1, 0, 0},
+		{"client", "hs-2", d1, 0, 0},
+		{"client", "hs-1", h1, 0, 0},
+	}
+}
+
+// c10OwnDatagrams: how many datagrams the honest traffic of a scenario consists of before the junk starts (an upper
+// bound is enough: the index wraps around). A discoverable session costs 5 handshake datagrams, a hidden one 2, the
+// baseline probe 2 more, closing a server-side handle at most 2; an idle server has no traffic of its own and gets the
+// table of valid messages of another handshake instead.
+func c10OwnDatagrams(sc c10CopyScn, tableLen int) int {
+	hs := 5
+	if sc.Cfg.Hidden {
+		hs = 2
+	}
+	if sc.Target == "client" {
+		switch sc.State {
+		case "open":
+			return hs + 2
+		case "hs-1":
+			return 2
+		}
+		return 4
+	}
+	n := sc.Sessions * (hs + 2)
+	for i := 0; i < sc.Sessions; i++ {
+		if sc.Closed>>i&1 == 1 {
+			n += 2
+		}
+	}
+	switch sc.State {
+	case "idle":
+		return tableLen
+	case "mid-ack-held":
+		n += 3
+	case "mid-auth-held":
+		n += 5
+	}
+	return n
 }
 
 func TestVerifC10Sweep(t *testing.T) {
@@ -2211,10 +2315,77 @@ func TestVerifC10Sweep(t *testing.T) {
 			return
 		}
 	}
+	// fourth enumeration: VERBATIM COPIES of the case's own datagrams (the network duplicates a datagram, or somebody who
+	// saw it sends it again): every datagram of the case's honest traffic - each handshake message of every established
+	// session and of the handshake in progress, the held-back message, the probe messages - one copy per case, sent from
+	// the address the original came from, from the peer's address and from a third address, to an endpoint in every
+	// state; the oracle is evaluated at once and after the handshake timeout (5 s) has passed once and twice: whatever
+	// the copy left behind in the endpoint (a pending handshake, a timer) has expired in between. Then whole
+	// conversations: all of them in the original order, in reverse order, and in the original order from a third address.
+	for _, sc := range c10CopyScenarios() {
+		k := c10OwnDatagrams(sc, len(table))
+		settles := []int{0, 6, 11}
+		releases := []bool{false}
+		switch {
+		case sc.State == "closing":
+			settles = []int{0}
+		case sc.Target == "client" && sc.State != "open":
+			settles, releases = []int{0}, []bool{true, false}
+		}
+		mk := func(settle int, release bool, junk ...c10Junk) c10Case {
+			return c10Case{Target: sc.Target, Cfg: sc.Cfg, State: sc.State, Sessions: sc.Sessions, Closed: sc.Closed, Release: release, SettleS: settle, Junk: junk}
+		}
+		for _, settle := range settles {
+			for _, release := range releases {
+				if sc.State != "closing" {
+					for i := 0; i < k; i++ {
+						for _, src := range []int{-1, 0, 1} {
+							idx++
+							if !rec.Mine(idx) {
+								continue
+							}
+							c := mk(settle, release, c10Junk{K: "tmpl", T: 200 + i, Src: src})
+							datagrams++
+							rec.Persist(c)
+							if !vlib.Each(t, rec, c, run) {
+								return
+							}
+						}
+					}
+				}
+				if sc.Target == "client" && sc.State != "open" {
+					continue // (every junk datagram meets its own fresh handshaking client there: nothing to add)
+				}
+				for variant := 0; variant < 3; variant++ {
+					idx++
+					if !rec.Mine(idx) {
+						continue
+					}
+					var junk []c10Junk
+					for i := 0; i < k; i++ {
+						switch variant {
+						case 0:
+							junk = append(junk, c10Junk{K: "tmpl", T: 200 + i, Src: -1})
+						case 1:
+							junk = append(junk, c10Junk{K: "tmpl", T: 200 + k - 1 - i, Src: -1})
+						default:
+							junk = append(junk, c10Junk{K: "tmpl", T: 200 + i, Src: 1})
+						}
+					}
+					c := mk(settle, release, junk...)
+					datagrams += len(junk)
+					rec.Persist(c)
+					if !vlib.Each(t, rec, c, run) {
+						return
+					}
+				}
+			}
+		}
+	}
 	// complete only if nothing of the enumerated space had to be skipped because of an open finding
 	rec.SetExhaustive(complete && c10ExcludedTotal == 0)
 	rec.AddExtra("datagrams", datagrams)
-	rec.Extra("enumerated", "every message of an honest discoverable and hidden run (10 messages), every truncation length 0..len, first byte kept and replaced by each other valid type byte, bytes 4..8 kept and replaced by a live session id, against 7 server state/configuration pairs and 5 client states (quick tier: handshaking clients get the server-sent messages with the types a client reads, other messages up to 64 bytes); every message type with a length field x field and real length set consistently to every boundary value (around 0, 2^8, 2^14, 2^15, MaxPlaintextSize, MaxTotalPacketSize, 65507, 65535; as field value and as datagram length; exact and off by one) and to the message's own value -2..+2; transport / control / unknown-type datagrams sealed with the real sealing code under each of 6 guessable keys x 3 counters x pending-or-live / second live / unknown session id; ClientAuth (discoverable) and hidden requests (every configuration) by peers that run the unauthenticated part of the key exchange and put a chosen plaintext into the certificate field: first / second vector length prefix at every position relative to the room left (exact, 1..3 past, 0, 0xffff) x genuine / random contents x natural / 8 / 300 bytes")
+	rec.Extra("enumerated", "every message of an honest discoverable and hidden run (10 messages), every truncation length 0..len, first byte kept and replaced by each other valid type byte, bytes 4..8 kept and replaced by a live session id, against 7 server state/configuration pairs and 5 client states (quick tier: handshaking clients get the server-sent messages with the types a client reads, other messages up to 64 bytes); every message type with a length field x field and real length set consistently to every boundary value (around 0, 2^8, 2^14, 2^15, MaxPlaintextSize, MaxTotalPacketSize, 65507, 65535; as field value and as datagram length; exact and off by one) and to the message's own value -2..+2; transport / control / unknown-type datagrams sealed with the real sealing code under each of 6 guessable keys x 3 counters x pending-or-live / second live / unknown session id; ClientAuth (discoverable) and hidden requests (every configuration) by peers that run the unauthenticated part of the key exchange and put a chosen plaintext into the certificate field: first / second vector length prefix at every position relative to the room left (exact, 1..3 past, 0, 0xffff) x genuine / random contents x natural / 8 / 300 bytes; verbatim copies of every datagram of the case's own honest traffic (every handshake message of each established session and of the handshake in progress, the held-back message, probe messages; for an idle server the 10 messages of another handshake), one per case, x {from the address the original came from, from the peer's address, from a third address} x oracle {at once, 6 s, 11 s later: the 5 s handshake timeout has passed once / twice} against 13 server scenarios (idle, 1 / 2 established sessions, one closed by its owner, ClientAck / ClientAuth held back with and without established sessions, one certificate / two virtual hosts / hidden / hidden with three certificates) and 5 client scenarios, plus the whole conversation copied in the original order, in reverse order and from a third address (also racing Server.Close)")
 }
 
 // ---------------------------------------------------------------------------
